@@ -528,7 +528,6 @@ func runPair(c *vf.Ctx, i int, r *rand.Rand, pings bool) {
 }
 
 var pingBytes = amino.MustMarshalAnySized(conn.PacketPing{})
-var pongBytes = amino.MustMarshalAnySized(conn.PacketPong{})
 
 // hasPing: a ping packet is a fixed byte string; used only to decide how long to linger.
 func hasPing(cc *chunkConn) bool { return bytes.Contains(cc.wireCopy(), pingBytes) }
